@@ -391,3 +391,50 @@ MANIFEST_TEXT["C10"] = {
              "tolerance (file reader, which re-simplifies)."),
     "note": "Trusted: CPython, z3, pvm/exact.py, float('%.4g' % x) as the definition of the printed rounding.",
 }
+
+META["C11"] = {
+    "level": "exploration",
+    "rule": ("cases = (constraint list with dyadic data, behaviour with dyadic values) placed on, 1/64 inside and 1/64 "
+             "outside a chosen boundary, with missing and extra variables, partial evaluations; emptiness queries on "
+             "feasible, unbounded, boxed and gapped systems (gap margins +-1, +-1/8, +-2e-3, +-1e-3, 0, +-1e-5; "
+             "margins thinner than 5e-4 are band); consistency triples (L, R, b) with b in L whenever L refines R. "
+             "Oracle: exact rational evaluation / feasibility over Q. Non-trivial = judged (not band); distinct = case "
+             "digests."),
+    "required": ["membership:on:True", "membership:inside:True", "membership:outside:False",
+                 "membership:missing:missing-var", "membership:extra:True", "evaluate:returned", "evaluate:ValueError",
+                 "emptiness:gap:empty", "emptiness:gap:nonempty", "emptiness:gap:band", "emptiness:feasible:nonempty",
+                 "consistency:refines=True:inL=True:inR=True"],
+    "assumptions": [TB, "dyadic data so that pacti's float evaluation is exact"],
+    "soft_s": {"quick": 200, "thorough": 2500},
+}
+MANIFEST_TEXT["C11"] = {
+    "technique": RM + "contains_behavior / evaluate / is_empty executed at boundary-adjacent dyadic points; exact Fraction evaluation and z3 feasibility as oracle; cross-check with refines",
+    "text": ("Exploration: every membership / emptiness answer is compared with exact rational arithmetic on points "
+             "placed on and next to each boundary; a behaviour contained in L must be contained in every R that L is "
+             "reported to refine."),
+    "note": "Trusted: CPython fractions, z3, pvm/exact.py.",
+}
+
+META["C16"] = {
+    "level": "exploration",
+    "rule": ("cases = a contract (small-integer / dyadic data) with one (source, target) pair - target fresh, an "
+             "existing input, an existing output, source absent, source equal to target, arbitrary - or a mapping "
+             "list (swap through a temporary name, chains, repeated source, random), and single terms (including "
+             "coefficients that cancel when merged). Oracle: the reference substitution on the recorded operand; "
+             "A_R == sigma(A) and A_R & G_R == sigma(A & G) by z3 (tolerance), interface sets per the four cases, "
+             "clash => IncompatibleArgsError, fresh-and-back restores, mapping lists folded left to right. "
+             "Non-trivial = all executed cases; distinct = case digests."),
+    "required": ["rename:fresh:returned", "rename:existing_input:returned", "rename:existing_output:returned",
+                 "rename:existing_output:IncompatibleArgsError", "rename:absent:returned", "rename:same:returned",
+                 "fresh-and-back:returned", "sequence:swap_through_temp:returned", "sequence:chain:returned",
+                 "term-rename:returned"],
+    "assumptions": [NUM, TB, "interface lists compared as sets plus duplicate-freeness"],
+    "soft_s": {"quick": 200, "thorough": 2500},
+}
+MANIFEST_TEXT["C16"] = {
+    "technique": RM + "rename_variable / rename_variables executed under wrappers; exact z3 comparison with the reference substitution instance, interface prescription per case",
+    "text": ("Exploration: every renaming result is compared with the substitution instance of the recorded operand "
+             "(assumptions, and assumptions with guarantees), the interface with the four-case prescription, and "
+             "mapping lists with the left-to-right fold of single renamings."),
+    "note": "Trusted: CPython, z3, the 10-line reference substitution in pvm/checks/c16.py.",
+}
